@@ -40,7 +40,7 @@ PRI_CHEAP, PRI_CORE, PRI_EXT, PRI_SWEEP = 0, 1, 2, 3
 CHEAP_OPS = (OP_ADD, OP_SUB, OP_CHK, OP_RT)
 # plain-build milliseconds of multiplication work per (configuration, built-in curve); case counts
 # follow from this through a fixed cost model (no clock is read)
-BUDGET_MS = {"quick": 400.0, "thorough": 500.0}
+BUDGET_MS = {"quick": 200.0, "thorough": 400.0}
 MIN_MULT_CASES = 4
 LOAD_LIMIT_MS = {"quick": 6000.0, "thorough": 20000.0}
 CRASH_LIMIT = 4           # crashes per (job, build, entry point, key marks) before such cases are no longer fed
@@ -224,21 +224,25 @@ class Info:
         self.unk_wider = self.unk in TABLE_ALGOS and self.unkw > self.fxpw
 
     def family(self, op):
+        """Configuration family of an entry point = the macro choices on its code path.  In a build whose
+        unknown-point window is wider than the fixed-point window the shared table overflows the stack
+        (memory corruption), so nothing observed later in such a process is independent of it: every
+        family of such a build carries the marker."""
         c = self.coord
+        w = ",unkw>fxpw" if self.unk_wider else ""
         if op in (OP_ADD, OP_SUB):
-            return c
+            return c + w
         if op == OP_UNK:
-            return "%s,unk=%s%s" % (c, self.unk, ",unkw>fxpw" if self.unk_wider else "")
+            return "%s,unk=%s%s" % (c, self.unk, w)
         if op == OP_BP:
-            return "%s,fxp=%s" % (c, self.fxp)
+            return "%s,fxp=%s%s" % (c, self.fxp, w)
         if op == OP_TWIN:
-            return "%s,twin=%s" % (c, "BIN" if self.twin == "FXP_UNKPT" else self.twin)
+            return "%s,twin=%s%s" % (c, "BIN" if self.twin == "FXP_UNKPT" else self.twin, w)
         if op == OP_TWINBP:
             if self.twin == "FXP_UNKPT":
-                return "%s,twin=FXP_UNKPT,fxp=%s,unk=%s%s" % (c, self.fxp, self.unk,
-                                                              ",unkw>fxpw" if self.unk_wider else "")
-            return "%s,twin=%s" % (c, self.twin)
-        return "any"
+                return "%s,twin=FXP_UNKPT,fxp=%s,unk=%s%s" % (c, self.fxp, self.unk, w)
+            return "%s,twin=%s%s" % (c, self.twin, w)
+        return "any" + w
 
     def as_dict(self):
         return {"digit_bits": self.digit_bits, "cc_mull_div": self.mulldiv, "BN_BIT_LEN": self.bn_bit_len,
@@ -663,7 +667,10 @@ def find_synthetic(tier):
                 if got >= limit_per_cat:
                     break
 
-    search(plist_small, want)
+    # quick: eight small categories (prime order, a=0, a=p-3 with and without the flag, cofactor 2 and 4
+    # with y=0 points, A_M3 with cofactor, b=0 with the point (0,0)); thorough: all eleven
+    search(plist_small, want if tier == "thorough" else [w_ for w_ in want if w_[0] not in (
+        "cofactor4-full-2-torsion", "a=p-3+A_M3,cofactor4", "a=0,cofactor")])
     if tier == "thorough":
         search(list(reversed(plist_small)), want[:9])
     # 8-bit primes: the natural curve size equals one 8-bit digit (comb path without fallback)
@@ -796,7 +803,8 @@ def gen_syn(job):
 
     # twin multiplication: every A with B in a set of relations x scalar grid
     grid = []
-    for k in ((0, 1, 2, n - 1, n, n + 1) if (tier == "quick" or p > 60) else (0, 1, 2, 3, n - 1, n, n + 1, N, (n + 1) // 2, 5)):
+    for k in ((0, 1, 2, n - 1, n) if tier == "quick" else ((0, 1, 2, n - 1, n, n + 1) if p > 60 else
+                                                           (0, 1, 2, 3, n - 1, n, n + 1, N, (n + 1) // 2, 5))):
         if k not in grid and 0 <= k <= kmax:
             grid.append(k)
     for m in pads:
@@ -988,11 +996,13 @@ def select_cases(g, info, cfg_i):
     if g["kind"] == "syn":
         if g["big"]:
             natural8 = info.digit_bits == 8 and g["m"] == 8
-            turn = (cfg_i + g["sid"]) % (8 if tier == "quick" else 6) == 0
+            turn = tier == "thorough" and (cfg_i + g["sid"]) % 6 == 0
             if not (natural8 or turn):
                 return [], None
-        elif tier == "thorough" and (cfg_i + g["sid"]) % 2:
-            return [], None         # small groups: every other configuration (about 90 configurations each)
+        elif tier == "thorough" and (cfg_i + g["sid"]) % 3:
+            return [], None         # small groups: every third configuration (about 60 configurations each)
+        elif tier == "quick" and (cfg_i + g["sid"]) % 3 == 0:
+            return [], None         # quick: each small group is enumerated in two thirds of the configurations
         pad = info.digit_bits if info.digit_bits > g["m"] else g["m"]
         return [cs for cs in g["cases"] if cs[5] == g["m"] or cs[5] == pad], None
     bits = g["bits"]
@@ -1070,6 +1080,7 @@ def run_job(job):
     counts = {"asu": {}, "plain": {}, "plainB": {}, "msan": {}}
     for gid in gids:
         g = _GROUPS[gid]
+        v0 = len(part["violations"])
         cases, note = select_cases(g, info, cfg_i)
         common.part_count(part, "cases_generated", len(g["cases"]))
         common.part_count(part, "cases_selected", len(cases))
@@ -1126,7 +1137,8 @@ def run_job(job):
                             "out-of-bounds access beyond an object in a selectable configuration; plain-build verdict "
                             "for the same case: %s" % ("right" if ok else "wrong/crash"), o.report)))
                     elif o.kind == "msan":
-                        key = _mkey("msan", op, "use-of-uninitialized-value", fam, _extra_marks(cs, g, info))
+                        mk = "SEGV" if "DEADLYSIGNAL" in (o.report or "") else "use-of-uninitialized-value"
+                        key = _mkey("msan", op, mk, fam, _extra_marks(cs, g, info))
                         if ok:
                             k2 = "msan:" + common.crash_key(o, ENTRY[op])
                             part["observations"][k2] = part["observations"].get(k2, 0) + 1
@@ -1143,12 +1155,80 @@ def run_job(job):
                                                     "curve": g["name"], "report_tail": (o.report or "")[-600:]})
                 elif o != first:
                     judge(part, cfg, info, san, cs, g, JUNK_A, o)
+        _confirm_isolated(part, v0, exes)
         # a couple of real cases per job for the evidence
         if len(part["samples"]) < 3 and cases:
             cs = cases[(cfg_i * 7 + gid) % len(cases)]
             part["samples"].append({"config": cfg["name"], "curve": g["name"], "entry": ENTRY[cs[0]],
                                     "class": list(cs[3]), "operands": decode_body(cs[1]), "expected": _fmt_exp(cs[2])})
     return part
+
+
+def _rerun_witness(exe, w):
+    """Execute the witness' case alone in a fresh driver process, once per junk pattern.
+    Returns (still_bad, [(junk, formatted observation or Crash)])."""
+    payload = bytes.fromhex(w["payload_hex"])
+    exp = w["expected"]
+    outs = []
+    bad = False
+    for junk in (JUNK_A, JUNK_B):
+        o = common.run_cases(exe, [bytes((payload[0], junk)) + payload[2:]])[0]
+        outs.append((junk, o))
+        if isinstance(o, Crash):
+            bad = True
+            continue
+        po = _fmt_obs(parse_obs(o))
+        if exp.get("rc") == "non-zero":
+            bad |= po["rc"] == 0
+        elif exp.get("rc") == "0":
+            bad |= po["rc"] != 0
+        else:
+            got = {k: po.get(k) for k in ("infinity", "x", "y") if k in po}
+            wantd = {k: exp.get(k) for k in ("infinity", "x", "y") if k in exp}
+            bad |= po["rc_curve"] != 0 or po["rc"] != 0 or got != wantd
+    if not any(isinstance(o, Crash) for _, o in outs) and outs[0][1] != outs[1][1]:
+        bad = True
+    return bad, outs
+
+
+def _confirm_isolated(part, v0, exes):
+    """Plain-build alarms of this group are re-executed alone in a fresh process (what --replay does).
+    A key none of whose first two witnesses reproduces alone is kept, but marked: the driver process
+    carries state from earlier cases (the loaded curve and its table, or memory corrupted by an
+    earlier case), so the alarm is real for the sequence but its witness is not a single case."""
+    new = part["violations"][v0:]
+    if not new:
+        return
+    bykey = {}
+    for i, (key, w) in enumerate(new):
+        if w.get("build") == "plain" and key.split(":", 1)[0] in ("oracle", "plain"):
+            bykey.setdefault(key, []).append(i)
+    rename = {}
+    first = {}
+    for key, idxs in bykey.items():
+        ok = None
+        for i in idxs[:2]:
+            bad, _ = _rerun_witness(exes["plain"], new[i][1])
+            if bad:
+                ok = i
+                break
+        if ok is None:
+            rename[key] = key + ",only-after-earlier-cases"
+        else:
+            first[key] = ok
+    out = []
+    for key, i in first.items():
+        out.append(new[i])
+    for i, (key, w) in enumerate(new):
+        if first.get(key) == i:
+            continue
+        if key in rename:
+            w = dict(w)
+            w["note"] = ((w.get("note") or "") + " | not reproduced when the case runs alone in a fresh process").strip(" |")
+            out.append((rename[key], w))
+        else:
+            out.append((key, w))
+    part["violations"][v0:] = out
 
 
 def _gen(job):
@@ -1276,36 +1356,19 @@ def replay(path):
     except common.BuildError as e:
         print("replay: configuration does not build: %s" % e)
         return 2
-    payload = bytes.fromhex(w["payload_hex"])
-    outs = []
-    for junk in (JUNK_A, JUNK_B):
-        pl = bytes((payload[0], junk)) + payload[2:]
-        o = common.run_cases(exe, [pl])[0]
-        outs.append(o)
+    bad, outs = _rerun_witness(exe, w)
     print("key      : %s" % rec["key"])
     print("config   : %s %s (%s build)" % (w["config"], " ".join(w["defs"]), san))
     print("entry    : %s on %s" % (w["entry"], w["curve_name"]))
     print("operands : %s" % json.dumps(w["operands"]))
     print("expected : %s" % json.dumps(w["expected"]))
-    bad = False
-    exp = w["expected"]
-    for junk, o in zip((JUNK_A, JUNK_B), outs):
+    for junk, o in outs:
         if isinstance(o, Crash):
             print("observed (junk %#x): %s rc=%s\n%s" % (junk, o.kind, o.returncode, (o.report or "")[-1500:]))
-            bad = True
-            continue
-        po = _fmt_obs(parse_obs(o))
-        print("observed (junk %#x): %s" % (junk, json.dumps(po)))
-        if exp.get("rc") == "non-zero":
-            bad |= po["rc"] == 0
-        elif exp.get("rc") == "0":
-            bad |= po["rc"] != 0
         else:
-            got = {k: po.get(k) for k in ("infinity", "x", "y") if k in po}
-            wantd = {k: exp.get(k) for k in ("infinity", "x", "y") if k in exp}
-            bad |= po["rc_curve"] != 0 or po["rc"] != 0 or got != wantd
-    if len(outs) == 2 and not any(isinstance(o, Crash) for o in outs) and outs[0] != outs[1]:
-        print("observations differ between junk patterns")
-        bad = True
+            print("observed (junk %#x): %s" % (junk, json.dumps(_fmt_obs(parse_obs(o)))))
+    if "only-after-earlier-cases" in rec["key"]:
+        print("note: this alarm was seen only after earlier cases in the same driver process; a single-case replay is "
+              "expected not to reproduce it (run the tier again to see it)")
     print("replay verdict: %s" % ("still violated" if bad else "not reproduced"))
     return 1 if bad else 0
